@@ -308,6 +308,30 @@ pub fn run_case(prop: &str, sub: u64, histories: usize, scratch: &Path, acc: &mu
             report(acc, &case, &knobs, &st, "multiline-toggle", &o, vs);
         }
     }
+    // a consumer that declines at the very start, or stops at some event: every strategy delivers
+    // the same (shortened) stream, completion signal included
+    if prop == "C02" && rng.chance(1, 4) {
+        let n_ev = reference.evs.len();
+        for k in [0usize, if n_ev > 2 { 1 + rng.below(n_ev - 2) } else { 0 }] {
+            let inj = Some((k, Answer::Stop));
+            let base = run(&case, &k0, &Strategy::Slice, inj, None);
+            for st in [Strategy::Reader(gen_history(&mut rng)), Strategy::Path { mmap: false }, Strategy::File { mmap: true }] {
+                let knobs = if matches!(st, Strategy::Reader(_)) { gen_knobs(&mut rng) } else { k0 };
+                let o = run(&case, &knobs, &st, inj, Some(scratch));
+                acc.evals += 1;
+                acc.faults.inc("consumer-stops-at-event-k");
+                // (the byte count reported on completion after a stop is not part of the comparison)
+                let strip = |e: &[Ev]| -> Vec<String> { e.iter().map(|x| if x.is_finish() { "finish".to_string() } else { x.brief() }).collect() };
+                if o.res.is_ok() != base.res.is_ok() || strip(&o.evs) != strip(&base.evs) || o.finish_calls != base.finish_calls {
+                    let class = format!("events-differ-after-stop:{}", st.kind());
+                    if acc.violations.iter().filter(|v| v.class == class).count() < 10 {
+                        acc.violations.push(Violation { property: prop.into(), class, summary: format!("consumer stops at event {k}: {} delivers [{}] with {} completion signals, the slice search [{}] with {}", st.name(), brief(&o.evs), o.finish_calls, brief(&base.evs), base.finish_calls), subseed: sub,
+                            replay: json!({"engine": "iosim", "kind": "c02c03", "leg": "stop-at-k", "case": case.to_json(), "knobs": knobs_json(&knobs), "strategy": st.to_json(), "stop_at": k}) });
+                    }
+                }
+            }
+        }
+    }
     // a searcher that is not fresh: one worker searches file after file with the
     // same Searcher, so what an earlier search left behind must not show
     if rng.chance(1, 3) {
@@ -565,6 +589,15 @@ pub fn replay(prop: &str, v: &Value, scratch: &Path) -> Option<(String, String)>
     let knobs = knobs_from_json(&v["knobs"]);
     let strat = Strategy::from_json(&v["strategy"]);
     let class = v["class"].as_str().unwrap_or("");
+    if v["leg"].as_str() == Some("stop-at-k") {
+        let k = v["stop_at"].as_u64().unwrap_or(0) as usize;
+        let inj = Some((k, Answer::Stop));
+        let base = run(&case, &Knobs::default(), &Strategy::Slice, inj, None);
+        let o = run(&case, &knobs, &strat, inj, Some(scratch));
+        let strip = |e: &[Ev]| -> Vec<String> { e.iter().map(|x| if x.is_finish() { "finish".to_string() } else { x.brief() }).collect() };
+        let bad = o.res.is_ok() != base.res.is_ok() || strip(&o.evs) != strip(&base.evs) || o.finish_calls != base.finish_calls;
+        return if bad { Some((class.to_string(), format!("stop at event {k}: {} delivers [{}], the slice search [{}]", strat.name(), brief(&o.evs), brief(&base.evs)))) } else { None };
+    }
     if v["leg"].as_str() == Some("heap-limit") {
         let reference = run(&case, &Knobs::default(), &Strategy::Slice, None, None);
         let o = run(&case, &knobs, &strat, None, None);
